@@ -167,7 +167,16 @@ impl FixtureDatabase {
                     self.expr_to_string(&binop.right, content)
                 )
             }
-            _ => "Any".to_string(),
+            // Any other annotation form (a list as in `Callable[[int], str]`, a call as in
+            // `Annotated[int, Gt(0)]`, `-1`, `*Ts`, ...) is shown as written in the source.
+            other => {
+                use rustpython_parser::ast::Ranged;
+                let range = other.range();
+                content
+                    .get(range.start().to_usize()..range.end().to_usize())
+                    .map(|text| text.to_string())
+                    .unwrap_or_else(|| "Any".to_string())
+            }
         }
     }
 }
